@@ -27,7 +27,17 @@ pub fn gen_case(t: &mut Tape, tier: Tier) -> Option<Case> {
     if !crate::oracle::sym::Sym::new(&g, &kin.inflow, &kin.masses).f_nonzero() {
         return None;
     }
-    Some(Case { a: Phys { g, kin, x, classes: classes.into_iter().map(String::from).collect() }, kin2 })
+    let mut a = Phys { g, kin, x, classes: classes.into_iter().map(String::from).collect() };
+    let mut kin2 = kin2;
+    if !t.chance(0.9) {
+        // edge data that contradicts the mass flags (see C10): F is algebraic in the masses actually supplied
+        gen::contradict_mass_flags(t, &mut a);
+        kin2.masses = a.kin.masses.clone();
+        if !crate::oracle::sym::Sym::new(&a.g, &a.kin.inflow, &a.kin.masses).f_nonzero() {
+            return None;
+        }
+    }
+    Some(Case { a, kin2 })
 }
 
 /// the fresh evaluation used a freshly built (not a restored) sampler for this case
@@ -75,7 +85,7 @@ fn check_d<const D: usize>(c: &Case, ctx: &mut Ctx) -> Result<(), Failure> {
     phys::classes_label(&c.a, ctx);
     let Some(ev) = phys::evaluate::<D>(&c.a, ctx, None)? else { return Ok(()) };
     let ok1 = assert_v(&c.a, &ev, ctx)?;
-    let b = Phys { g: c.a.g.clone(), kin: c.kin2.clone(), x: c.a.x.clone(), classes: vec![] };
+    let b = Phys { g: c.a.g.clone(), kin: c.kin2.clone(), x: c.a.x.clone(), classes: c.a.classes.iter().filter(|s| s.starts_with("mass-given:")).cloned().collect() };
     let Some(ev2) = phys::evaluate::<D>(&b, ctx, None)? else { return Ok(()) };
     let ok2 = assert_v(&b, &ev2, ctx)?;
     if !(ok1 && ok2) {
@@ -169,7 +179,7 @@ fn check_d<const D: usize>(c: &Case, ctx: &mut Ctx) -> Result<(), Failure> {
 }
 pub fn check(c: &Case, ctx: &mut Ctx) -> Result<(), Failure> {
     phys::validate(&c.a)?;
-    let b = Phys { g: c.a.g.clone(), kin: c.kin2.clone(), x: c.a.x.clone(), classes: vec![] };
+    let b = Phys { g: c.a.g.clone(), kin: c.kin2.clone(), x: c.a.x.clone(), classes: c.a.classes.iter().filter(|s| s.starts_with("mass-given:")).cloned().collect() };
     phys::validate(&b)?;
     with_d!(c.a.g.d, check_d(c, ctx))
 }
